@@ -25,6 +25,7 @@ FAMILIES: Dict[str, Dict[str, Any]] = {
                             ["op", "gelu:F"]], "sink": "sum"},
     "unit_layers": {"items": [["op", "ulinear:uu"], ["op", "usdpa:plain"], ["op", "ulinear:U"]], "sink": "sum"},
     "sequential_root": {"items": [["op", "linear:nn"], ["op", "tanh"], ["op", "linear:F_bias_pos"]], "sink": "tensor", "root": "sequential"},
+    "np_buffer": {"items": [["op", "linear:nn"], ["op", "with_zeros_np"], ["op", "with_zeros"], ["op", "linear:nn_nobias"]], "sink": "sum"},
     "torch_root": {"items": [["op", "linear:nn"], ["op", "gelu:nn"], ["op", "linear:nn_nobias"]], "sink": "tensor", "root": "torch_sequential"},
 }
 FMTS = [None, "fp8", "lossless", "e5m2rn", "sr_pinned"]
@@ -35,7 +36,7 @@ RULE = (
     "states = (chain prefix, call history); non-trivial = at least two transforms are nested"
 )
 BOUND = {
-    "quick": "6 module families x {unit_scale?} x {no format, fp8, lossless, E5M2-RN, pinned SR} x "
+    "quick": "7 module families x {unit_scale?} x {no format, fp8, lossless, E5M2-RN, pinned SR} x "
     "{no final, track_scales}; compile(final) for 3 families on the {unit_scale}/{} sets; all orders, "
     "all intermediate-call patterns, 3 final calls",
     "thorough": "compile(final) for every family",
@@ -393,10 +394,11 @@ def run_case(case: Dict[str, Any]) -> Dict[str, Any]:
                 d = same(call(m, inp), snap_out)
                 if d:
                     viol.append({"key": ident + "|original_behaviour_changed", "msg": f"{label}: {d}"})
-                ptrs = [{p.data_ptr() for p in mm.parameters()} for mm in mods]
+                # (parameters and ALL buffers, persistent or not: an in-place update of either on one module must not reach another)
+                ptrs = [{p.data_ptr() for p in list(mm.parameters()) + list(mm.buffers()) if p.numel()} for mm in mods]
                 for i, j in itertools.combinations(range(len(mods)), 2):
                     if ptrs[i] & ptrs[j]:
-                        viol.append({"key": ident + "|storage_shared", "msg": f"{label}: modules {i} and {j} of the chain share parameter storage"})
+                        viol.append({"key": ident + "|storage_shared", "msg": f"{label}: modules {i} and {j} of the chain share parameter / buffer storage"})
                         break
                 results.append((label, outs[0], cur, src))
                 if len(viol) > 3:
